@@ -235,6 +235,12 @@ type runner struct {
 	idx  int
 	only string // replay: evaluate only the case with this mutation label
 
+	// sink, when set, receives the honest base and every (non-trivial, distinct)
+	// mutant instead of evaluating them (used by the entry-point phase); light
+	// thins out the exhaustive bit-flip / relabelling loops to a seeded sample.
+	sink  func(mut, class string, judged bool, tx *types.Transaction, height uint64)
+	light bool
+
 	evals    int64
 	baseFP   uint64
 	baseH    uint64
@@ -327,6 +333,10 @@ func (x *runner) honest(tx *types.Transaction, height uint64) bool {
 	x.baseFP = fingerprint(tx, height)
 	x.baseH = height
 	x.seen = map[uint64]struct{}{}
+	if x.sink != nil {
+		x.sink("honest", "honest", true, tx, height)
+		return true
+	}
 	if x.only != "" && x.only != "honest" {
 		return true
 	}
@@ -367,6 +377,10 @@ func (x *runner) mutant(mut, class string, judged bool, tx *types.Transaction, h
 		return
 	}
 	x.seen[fp] = struct{}{}
+	if x.sink != nil {
+		x.sink(mut, class, judged, tx, height)
+		return
+	}
 	exp := "reject"
 	if !judged {
 		exp = "info"
@@ -402,6 +416,11 @@ func (x *runner) mutant(mut, class string, judged bool, tx *types.Transaction, h
 }
 
 func clone(t *types.Transaction) *types.Transaction { c := *t; return &c }
+
+// skipLight: in light mode only every 64th position (shifted by the base index) is kept.
+func (x *runner) skipLight(i int) bool {
+	return x.light && (i+x.idx)%64 != 0
+}
 
 // ---------------------------------------------------------------------------
 // mutation operators
@@ -812,6 +831,9 @@ func (x *runner) runNative(b *nativeBase) {
 
 	// (2) every single-bit flip of Hash
 	for bit := 0; bit < 256; bit++ {
+		if x.skipLight(bit) {
+			continue
+		}
 		c := clone(tx)
 		copy(c.Hash[:], flipBit(tx.Hash[:], bit))
 		x.mutant("hash-bitflip:"+strconv.Itoa(bit), "accepted-mutant:hash-bitflip", true, c, h)
@@ -819,6 +841,9 @@ func (x *runner) runNative(b *nativeBase) {
 	// (3) every single-bit flip of the 65-byte signature
 	sig := tx.Sign.Bytes()
 	for bit := 0; bit < 65*8; bit++ {
+		if x.skipLight(bit) {
+			continue
+		}
 		c := clone(tx)
 		c.Sign = common.BytesToSign(flipBit(sig, bit))
 		x.mutant("sign-bitflip:"+strconv.Itoa(bit), "accepted-mutant:sign-bitflip", true, c, h)
@@ -1346,6 +1371,9 @@ func (x *runner) runEth(b *ethBase) {
 		x.mutant("field=Type:"+m.name, "accepted-mutant:field=Type", true, c, h)
 	}
 	for bit := 0; bit < 256; bit++ {
+		if x.skipLight(bit) {
+			continue
+		}
 		c := clone(tx)
 		copy(c.Hash[:], flipBit(tx.Hash[:], bit))
 		x.mutant("hash-bitflip:"+strconv.Itoa(bit), "accepted-mutant:hash-bitflip", true, c, h)
@@ -1366,6 +1394,9 @@ func (x *runner) runEth(b *ethBase) {
 	// (single-field mutation). "forgery": when the flipped payload still decodes,
 	// the whole wrapper is re-derived from it but keeps the honest signer as Source.
 	for _, bit := range rlpBits(len(b.enc), rng) {
+		if x.skipLight(bit) {
+			continue
+		}
 		menc := flipBit(b.enc, bit)
 		class := "accepted-mutant:rlp-bitflip"
 		fw := wrap(menc, b.sender)
@@ -1466,7 +1497,10 @@ func (x *runner) runEth(b *ethBase) {
 	// node's conversion would derive it (chain id from that V, hash of that payload)
 	// and claims the honest sender. Only the honest (payload, wrapper) may verify.
 	nS := new(big.Int).Sub(ethtx.N, b.ref.S)
-	for _, rv := range vRelabelSet(b.chain) {
+	for ri, rv := range vRelabelSet(b.chain) {
+		if !rv.core && x.skipLight(ri) {
+			continue
+		}
 		for ti, sv := range []*big.Int{b.ref.S, nS} {
 			t := b.ref
 			t.V, t.S = rv.v, sv
